@@ -522,8 +522,8 @@ func Spec() *mon.Spec {
 		ChildSetup: setup,
 		Phases: []mon.Phase{
 			{Name: "selftest", Quick: 16, Thorough: 64, Run: selfTest},
-			{Name: "roundtrip", Quick: 640, Thorough: 16000, Run: runRoundtrip},
-			{Name: "literal", Quick: 640, Thorough: 16000, Run: runLiteral},
+			{Name: "roundtrip", Quick: 1300, Thorough: 16000, Run: runRoundtrip},
+			{Name: "literal", Quick: 1300, Thorough: 16000, Run: runLiteral},
 			{Name: "nonnumber", Quick: 200, Thorough: 3000, Run: runNonNumber},
 		},
 		Floors: map[string]int{"distinct_nontrivial": 50000, "floats": 30000, "float_subnormal": 300, "float_negzero": 20, "float_nan": 20, "float_inf": 20,
